@@ -598,3 +598,10 @@ V("recon-division-inverted", ["C01"], RL, "fire", (RC, "    return [o._ufl_expr_
 V("recon-conditional-branches-swapped", ["C01"], RL, "fire", (RC, "        sops = (ops[0][0], ops[1][i], ops[2][i])", "        sops = (ops[0][0], ops[2][i], ops[1][i])"))
 V("recon-sum-benign-index-loop", ["C01"], RL, "benign", (RC, "    return [o._ufl_expr_reconstruct_(a, b) for a, b in zip(ops[0], ops[1])]", "    return [o._ufl_expr_reconstruct_(ops[0][k], ops[1][k]) for k in range(len(ops[0]))]"))
 V("recon-dispatch-sum-to-product", ["C01"], RL, "fire", (RC, "    ufl.classes.Sum: handle_sum,", "    ufl.classes.Sum: handle_product,"))
+
+# ---- INDEX-MAPS ------------------------------------------------------------------------------------------
+IX = "ffcx/ir/analysis/indexing.py"
+V("ixmap-indexed-wrong-position", ["C01", "C04"], ["INDEX-MAPS"], "fire", (IX, "                p2[k] = p1[multiindex_to_ind1_map[k]]", "                p2[k] = p1[k]"))
+V("ixmap-indexed-free-offset", ["C01", "C04"], ["INDEX-MAPS"], "fire", (IX, "            p2[nmui + k] = p1[i]", "            p2[nmui + k] = p1[k]"))
+V("ixmap-ct-identity", ["C01", "C04"], ["INDEX-MAPS"], "fire", (IX, "        p2_to_p1_map[k] = fi1.index(mi[k].count())", "        p2_to_p1_map[k] = k"))
+V("ixmap-benign-rename", ["C01"], ["INDEX-MAPS"], "benign", (IX, "    for c1, p1 in enumerate(perm1):\n        for k, i in enumerate(multiindex):\n            if isinstance(i, Index):\n                p2[k] = p1[multiindex_to_ind1_map[k]]", "    for c1, point in enumerate(perm1):\n        p1 = point\n        for k, i in enumerate(multiindex):\n            if isinstance(i, Index):\n                p2[k] = p1[multiindex_to_ind1_map[k]]"))
